@@ -58,6 +58,37 @@ pub fn ov_value_ref<'q, 'v>(_w: &'v LogWriter<'q>, table: ValueTableId, index: u
 	}
 }
 
+/// A LogQuery implementor over the same array overlay, for the read paths that are generic in `impl LogQuery`
+/// (query, size, get, for_parts, HashColumn::get ...). Its ValueRef is a plain `&[u8]`: a two-word value that CBMC
+/// keeps concrete. (Probed: the `Option<LogWriterValueGuard>` that LogWriter's own value_ref returns is a nested
+/// enum; constants read through it — markers, next pointers — are no longer constants for symbolic execution and
+/// every chain-walk loop then unwinds to the bound.)
+pub struct OvView;
+impl LogQuery for OvView {
+	type ValueRef<'a> = &'a [u8];
+	fn with_index<R, F: FnOnce(&IndexChunk) -> R>(&self, _table: IndexTableId, _index: u64, _f: F) -> Option<R> { None }
+	fn value(&self, table: ValueTableId, index: u64, dest: &mut [u8]) -> bool {
+		let t = table.size_tier() as usize;
+		let i = index as usize;
+		unsafe {
+			if t >= OT || i >= OS || !OV_USED[t][i] { return false }
+			let len = if dest.len() < OV_LEN[t][i] { dest.len() } else { OV_LEN[t][i] };
+			let mut k = 0;
+			while k < OB { if k < len { dest[k] = OV_DATA[t][i][k]; } k += 1; }
+		}
+		true
+	}
+	fn value_ref<'a>(&'a self, table: ValueTableId, index: u64) -> Option<&'a [u8]> {
+		let t = table.size_tier() as usize;
+		let i = index as usize;
+		unsafe {
+			if t >= OT || i >= OS || !OV_USED[t][i] { return None }
+			Some(&OV_DATA[t][i][0..OV_LEN[t][i]])
+		}
+	}
+	fn ref_count<R, F: FnOnce(&RefCountChunk) -> R>(&self, _table: RefCountTableId, _index: u64, _f: F) -> Option<R> { None }
+}
+
 /// Harness-side view of "what the record contains for (table, slot)" that works under Kani (array overlay)
 /// and natively (real LogWriter): goes through the LogQuery interface, which is stubbed under Kani.
 pub fn rec_get(w: &LogWriter, table: ValueTableId, index: u64, dest: &mut [u8]) -> bool {
